@@ -91,7 +91,7 @@ Qed.
 Lemma p_C10_bytes_by_statements_only : forall (rmatch : text -> text -> option pmatch) (compress : list text -> text) (sc : bool) fuel now sd a store fin sd' a' store' evs t,
   wf_action compress (sd_plugs sd) a -> inv_to sd a ->
   do_while rmatch compress sc fuel now sd a store [] None = Ok ((fin, sd', a', store', evs), t) ->
-  sd_to sd' = sd_to sd ++ sent_bytes evs /\ forallb ev_script evs = true /\ same_id a a' .
+  ((length (sd_to sd ++ sent_bytes evs) <= Z.to_nat MAX_DEV_BUF)%nat -> sd_to sd' = sd_to sd ++ sent_bytes evs) /\ forallb ev_script evs = true /\ same_id a a' .
 Proof.
   intros rmatch compress sc fuel now sd a store fin sd' a' store' evs t Hw Ht E.
   pose proof (do_while_props rmatch compress sc fuel now sd a store [] None Hw Ht) as H. rewrite E in H.
